@@ -7,8 +7,20 @@
    du_timer_flags is represented by its clock field (bits 2-3) and the AFTER bit.
    dt_heap_entry[] is kept per heap (h_ent of the heap the timer is in): a timer is in at most one heap, and the
    entries are DTH_INVALID_ID whenever it is in none.
-   Reference counts, the wlh and the hop of the fired source to its queue (dux_merge_evt) are not modelled: a fire
-   event records the timer, the ds_pending_data it is handed over with, and the cached `now`. *)
+   Reference counts and the hop of the fired source to its queue (dux_merge_evt) are not modelled: a fire
+   event records the timer, the ds_pending_data it is handed over with, and the cached `now`.  Of the wlh only
+   "registered or not" is kept (t_reg).
+
+   GRANULARITY: every function below is one atomic step.  In the library the manager thread (all heap operations,
+   _dispatch_timers_run, configure / resume of an armed timer), the thread draining the source (latch, handler,
+   configure of a disarmed timer) and client threads (dispatch_source_set_timer) share ds_pending_data (atomic: load
+   event.c:1092, or_orig :1094, stores :1062 :1105 :1109 :879, xchg source.c:534), dt_pending_config (xchg
+   source.c:1320, event.c:870) and dt_timer (handler-side writes only with the DISARMED marker latched, i.e. while the
+   timer is out of its heap: source.c:505-526).  That these accesses make the functions behave as atomic steps is an
+   assumption of the theorems about histories (Properties_C11.v, GRANULARITY); it is checked on recorded multi-thread
+   runs by the trace replay, not proved.
+
+   Last section: the source side, i.e. the rules by which src/source.c issues these operations. *)
 From Coq Require Import ZArith List Bool.
 From Verif Require Import Word Gen_consts Gen_time Gen_timer Heap.
 Import ListNotations.
@@ -455,8 +467,8 @@ Definition wake_needed (x : timer) (canc : bool) : bool :=
 Definition x_wakeup (xs : xstate) (t : Z) : xstate :=
   mkX (x_st xs) (x_canc xs) (updf (x_enq xs) t (x_enq xs t || wake_needed (tm (x_st xs) t) (x_canc xs t))).
 
-(* _dispatch_source_latch_and_call (source.c:529-586) for a timer: latch, handler, and the configuration that arrived
-   while the timer was disarmed is applied right after the handler (source.c:575-578) *)
+(* _dispatch_source_latch_and_call (source.c:529-587) for a timer: latch, handler, and the configuration that arrived
+   while the timer was disarmed is applied right after the handler (source.c:576-580) *)
 Definition latch_and_call (st : state) (t now : Z) : state :=
   let prev := t_pending (tm st t) in
   let st := fst (latch st t now) in
@@ -468,24 +480,24 @@ Definition invoke_step (xs : xstate) (t now : Z) : xstate :=
   let x := tm st t in
   let canc := x_canc xs t in
   let keep st' := mkX st' (x_canc xs) (x_enq xs) in
-  if t_reg x =? 0 then keep (register st t)                                      (* :755 _dispatch_source_install *)
-  else if t_susp x then xs                                                       (* :766 suspended: nothing *)
-  else if negb canc && has_cfg x then keep (configure st t)                      (* :771-779 *)
-  else if negb canc && nz (t_pending x) then keep (latch_and_call st t now)      (* :801-829 *)
-  else if canc && negb (t_reg x =? 2) then keep (unregister st t)                (* :831-851 *)
-  else if negb canc && refs_needs_rearm x then keep (resume st t)                (* :866-890 _dispatch_unote_resume *)
+  if t_reg x =? 0 then keep (register st t)                                      (* source.c:760 _dispatch_source_install *)
+  else if t_susp x then xs                                                       (* :762-765 suspended: nothing *)
+  else if negb canc && has_cfg x then keep (configure st t)                      (* :767-776 *)
+  else if negb canc && nz (t_pending x) then keep (latch_and_call st t now)      (* :798-828 *)
+  else if canc && negb (t_reg x =? 2) then keep (unregister st t)                (* :830-849 *)
+  else if negb canc && refs_needs_rearm x then keep (resume st t)                (* :864-890, :883 _dispatch_unote_resume *)
   else mkX st (x_canc xs) (updf (x_enq xs) t false).                             (* nothing left: returns NONE *)
 
 Inductive xop :=
 | XNew (t flags : Z)                         (* dispatch_source_create / the source of _dispatch_after *)
-| XAfter (t tg dl : Z)                       (* _dispatch_after stores dt_timer before activating (source.c:1390-1393) *)
-| XSetTimer (t clock tg dl itv : Z)          (* dispatch_source_set_timer (source.c:1299): store the configuration, dx_wakeup *)
+| XAfter (t tg dl : Z)                       (* _dispatch_after stores dt_timer before activating (source.c:1378-1381) *)
+| XSetTimer (t clock tg dl itv : Z)          (* dispatch_source_set_timer (source.c:1299-1322): store the configuration, dx_wakeup *)
 | XActivate (t : Z)                          (* dispatch_activate: _dispatch_source_activate installs the timer (source.c:691), the lane wakes it *)
 | XSuspend (t : Z)                           (* dispatch_suspend *)
 | XResume (t : Z)                            (* dispatch_resume: _dispatch_lane_resume ends in dx_wakeup *)
-| XCancel (t : Z)                            (* dispatch_source_cancel (source.c:988): DSF_CANCELED, dx_wakeup *)
+| XCancel (t : Z)                            (* dispatch_source_cancel (source.c:988-1002): DSF_CANCELED, dx_wakeup *)
 | XInvoke (t now : Z)                        (* the lane invokes the source *)
-| XDrain (fuel : nat) (nows : Z -> Z)        (* the manager's timer pass; every fire ends in _dispatch_source_merge_evt's dx_wakeup (source.c:1146) *)
+| XDrain (fuel : nat) (nows : Z -> Z)        (* the manager's timer pass; every fire ends in _dispatch_source_merge_evt's dx_wakeup (source.c:1147) *)
 | XExpire (i : Z).                           (* the kernel timer of clock i expires *)
 
 Definition top1 (st : state) (o : top) : state := fst (tstep 0 st o).
